@@ -114,6 +114,11 @@ def run(tier, seed):
     pe = os.path.join(vlib.sub("mcb"), "penv.json")
     json.dump(dict(vars=[dict(n=list("HOME"), v=list("/h"))]), open(pe, "w"))
     out.add_mc("MC_Builders", vlib.tlc_mc("MC_Builders", workers=4, extra_env=dict(PENV=pe)))
+    # (d) schedules: a uid-only and a gid-only chown (a dirs-only and a files-only chmod) of the same tree on two threads -
+    # every interleaving of their guards; the outcome must be that of one order (both updates present)
+    from props import c04
+    for i, prog in enumerate(("[[29],[30]]", "[[31],[32]]", "[[29],[30,29]]")):
+        c04.sched(out, "chown2-%d" % i, ["--mode", "prog", "--prog", prog], nworkers=1)
     from props import vfsrun
     n, ln = (200, 150) if thorough else (12, 100)
     vfsrun.hist(out, "builders", "rand", ["--n", str(n), "--len", str(ln), "--seed", str(seed + 11)], recs_per_chunk=13 if thorough else 1)
